@@ -2,8 +2,8 @@ package sx
 
 import (
 	"fmt"
-	"hash/crc32"
 	"go/token"
+	"hash/crc32"
 	"sort"
 	"strings"
 
@@ -259,7 +259,7 @@ func init() {
 			return uint64(x)
 		},
 		"verifFSTornFiles": func(fr *Frame, a []Value) Value { return uint64(fr.it.env.nTorn) },
-		"verifFSOps": func(fr *Frame, a []Value) Value { return uint64(len(fr.it.env.ops)) },
+		"verifFSOps":       func(fr *Frame, a []Value) Value { return uint64(len(fr.it.env.ops)) },
 		"verifFSOpKind": func(fr *Frame, a []Value) Value {
 			e := fr.it.env
 			i := int(fr.it.concInt(a[0], "verifFSOpKind"))
